@@ -152,6 +152,23 @@ def _safe(s):
     return re.sub(r'[^A-Za-z0-9_.-]+', '_', s)[:150]
 
 
+def evaluate_keys(prop, repo, configs=('default',)):
+    """violation keys of the property's rules on another checkout (self-tests); prints nothing"""
+    mod = importlib.import_module('tprules.rules.%s' % prop)
+    keys = set()
+    devnull = open(os.devnull, 'w')
+    for cfgname in configs:
+        ctx = Ctx(prop, 'quick', cfgname, repo=repo, log=devnull)
+        ctx.facts(getattr(mod, 'CRATES', None))
+        mod.run(ctx)
+        for r in ctx.rules:
+            if r.floor and len([i for i in r.instances if not i['key'].startswith(r.id + '|anchor-missing')]) < r.floor:
+                keys.add(r.id + '|floor')
+            for v in r.violations:
+                keys.add(v['key'])
+    return keys
+
+
 def run_property(prop, tier='quick', replay=None, facts_path=None, repo=None, write_evidence=True,
                  configs=None, quiet=False):
     """Evaluate the rules of one property. Returns exit code."""
@@ -250,15 +267,20 @@ def run_property(prop, tier='quick', replay=None, facts_path=None, repo=None, wr
         if v.get('witness') is not None:
             w = json.dumps(v['witness'])
             print('  witness: %s' % (w if len(w) < 600 else w[:600] + '…'), file=out)
+    selftest_results = None
+    if tier == 'thorough' and not replay and not repo and os.environ.get('TP_NO_SELFTEST') != '1':
+        from . import selftest
+        base_keys = {v['key'] for r in all_rules for v in r.violations}
+        selftest_results = selftest.run(prop, lambda rp: evaluate_keys(prop, rp), base_keys, out=out)
     wall = time.time() - t0
     if write_evidence:
-        write_evidence_file(prop, tier, seed, mod, all_rules, unlisted, listed, gen_infos, wall, ctxs)
+        write_evidence_file(prop, tier, seed, mod, all_rules, unlisted, listed, gen_infos, wall, ctxs, selftest_results)
     print('%s: %d rule(s), %d instance(s), %d unlisted violation(s), %d known finding(s), %.1fs' % (
         prop, len(all_rules), sum(len(r.instances) for r in all_rules), len(done), len(printed_known), wall), file=out)
     return 1 if unlisted else 0
 
 
-def write_evidence_file(prop, tier, seed, mod, rules, unlisted, listed, gen_infos, wall, ctxs):
+def write_evidence_file(prop, tier, seed, mod, rules, unlisted, listed, gen_infos, wall, ctxs, selftest_results=None):
     os.makedirs(EVIDENCE_DIR, exist_ok=True)
     obligations = sum(len(r.instances) for r in rules)
     discharged = sum(1 for r in rules for i in r.instances if i['ok'])
@@ -309,6 +331,7 @@ def write_evidence_file(prop, tier, seed, mod, rules, unlisted, listed, gen_info
             'generation': gen_infos,
             'known_findings_reported': sorted({v['key'] for _, v, _ in listed}),
             'exhaustive': False,
+            **({'selftest': selftest_results} if selftest_results is not None else {}),
         },
         'assumptions': list(getattr(mod, 'ASSUMPTIONS', [])) + [
             'the default-feature, non-test, host-target build is the analysed program (thorough adds --no-default-features for trust-runtime)',
